@@ -386,7 +386,7 @@ def medium_cases(rng, widths):
 KARA_QUICK = [(17, 17), (18, 18), (19, 19), (20, 20), (21, 21), (20, 3), (35, 35), (37, 37), (41, 41)]
 KARA_THOROUGH = [(n, n) for n in (22, 23, 24, 34, 36, 38, 39, 40, 42, 47, 64)] + [(18, 1), (1, 20), (25, 18),
                                                                                (40, 21), (37, 36)]
-SQ_QUICK = [47, 48, 49, 50, 53, 54]
+SQ_QUICK = [47, 48, 49, 50, 51, 53, 54, 55]      # 51, 55: ODD widths on the split path (the halves differ in length)
 SQ_THOROUGH = [51, 52, 55, 60, 96]
 
 
